@@ -135,6 +135,18 @@ fn run_case(ctx: &mut Ctx, c: &J, n: u64) -> Outcome {
             }
         }
     } else if let Some(good) = ctx.tables.get(&key).and_then(|e| e.1.clone()) {
+        // every row of a batch is checked, not only the first: a valid row followed by one holding the refused value
+        let batch = catch_unwind(AssertUnwindSafe(|| p.insert_rows(Insert::into(t.as_str()).rows(vec![vec![Value::Int(1), good.clone()], vec![Value::Int(2), v.clone()]]))));
+        match batch {
+            Err(_) => {
+                return Outcome { viol: Some(("valid-panic", "insert_rows of a batch panicked".into())), class };
+            }
+            Ok(Ok(())) => {
+                let _ = p.delete_rows(Delete::from(t.as_str()));
+                return Outcome { viol: Some(("valid-insert", "a batch whose second row holds a value that insert_rows refuses on its own was accepted".into())), class };
+            }
+            Ok(Err(_)) => {}
+        }
         let _ = p.insert_rows(Insert::into(t.as_str()).row(vec![Value::Int(1), good.clone()]));
         let upd = catch_unwind(AssertUnwindSafe(|| p.update_rows(Update::table(t.as_str()).set("C", v.clone()))));
         match upd {
